@@ -220,7 +220,7 @@ async def _main(case, obs, loop, net):
                     continue
                 track(rec, fut)
             elif kind == "batch":
-                _, tname, part, n, pad = op
+                _, tname, part, n, pad = op[:5]
                 b = producer.create_batch()
                 recs = []
                 for j in range(n):
@@ -243,6 +243,15 @@ async def _main(case, obs, loop, net):
                 for r in recs:
                     r["batch_future"] = True
                     track(r, fut)
+                if len(op) > 5 and op[5] is not None:
+                    # the application gives up waiting for the batch: wait_for() cancels the future send_batch() returned
+                    try:
+                        await asyncio.wait_for(fut, op[5])
+                    except asyncio.TimeoutError:
+                        for r in recs:
+                            r["app_cancelled"] = True
+                    except Exception:
+                        pass
 
     tasks = [asyncio.ensure_future(run_task(i, ops)) for i, ops in enumerate(case["tasks"])]
     bound = 10 * cfg["request_timeout_ms"] / 1000.0 + 40 * cfg["retry_backoff_ms"] / 1000.0 + 5.0
@@ -415,6 +424,8 @@ def strategy(focus, wrap=False):
                     ops.append(["flush"])
                 elif r == 17:
                     ops.append(["batch", t["name"], part, draw(st.integers(1, 4)), draw(st.sampled_from([0, 20]))])
+                    if cancel and draw(st.integers(0, 1)) == 0:
+                        ops[-1].append(draw(st.sampled_from([0.002, 0.01, 0.04, 0.1, 0.3])))
                 elif r == 18 and focus == "futures":
                     ops.append(["stop"])
                 elif r == 19 and focus == "futures":
